@@ -46,7 +46,7 @@ def plan(tier):
                 % len(SYMBOLS),
         'min_monitor': {'steps_checked': 2000, 'uses_refused': 200, 'uses_succeeded': 20,
                         'transitions_seen': 30, 'batch_items_checked': 300,
-                        'attribute_operations_at_states': 1000, 'use_revoke_use_batches': 100, 'states_reported_inside_batches': 50},
+                        'attribute_operations_at_states': 1000, 'use_revoke_use_batches': 100, 'beside_answers_compared': 300, 'states_reported_inside_batches': 50},
         'assumptions': ['engine behaviour is a function of (store, request, identity) - checked by C11 - '
                         'so closing the state graph covers all sequences of any depth over the alphabet',
                         'Revoke with CA_COMPROMISE may lead Active->Deactivated (inside the allowed relation)'],
@@ -58,6 +58,7 @@ def cases(tier, seed):
     n = 64 if tier == 'quick' else 640
     cs += [{'random': i} for i in range(n)]
     cs += [{'batch': i} for i in range(64 if tier == 'quick' else 640)]
+    cs += [{'beside': i} for i in range(16 if tier == 'quick' else 160)]
     return cs
 
 
@@ -363,6 +364,51 @@ def possible_after(states, base, code, ok):
     return out
 
 
+def run_beside(ctx, case):
+    """Lifecycle steps and uses while other clients are being served: three clients, each on keys of its own, walk them
+    through Activate, uses that fit and do not fit, Revoke, more uses, Destroy, reading the State in between - from threads of
+    their own with yields injected.  What a client is answered about its own keys does not depend on the others: every answer
+    must be the one the same script gets alone (the gates of C04 are functions of the object's own state)."""
+    from kv.monitors.concurrent import alone_vs_beside
+    rng = ctx.rng()
+    rig.install_clock(rig.VClock(step=0))
+    users = [(('alice', None), (1, 2)), (('bob', None), (2, 0)), (('carol', None), (1, 4)), (('dave', None), (1, 0))]
+    clients = rng.sample(users, 3)
+    with rig.scratch_dir() as d:
+        srv = rig.Server(d + '/db.sqlite')
+        try:
+            scripts, labels = [], []
+            for (u, g), v in clients:
+                keys = [store.register(srv, 'sym', u, rng, masks=masks_of(rng.choice(('full', 'full', 'ENCRYPT', 'empty'))), names=['%s-k%d' % (u, i)],
+                                       state=rng.choice(('pre', 'active')), value=bytes(range(16))) for i in range(2)]
+                helper = store.register(srv, 'sym', u, rng, names=['%s-helper' % u], state='pre', value=bytes(range(16, 32)))
+                if None in keys or helper is None:
+                    ctx.unsure('setup of a C04 beside-history failed')
+                    return
+                frames, labs = [], []
+                for j in range(rng.randrange(8, 16)):
+                    o = rng.choice(keys)
+                    sym = rng.choice(('activate', 'encrypt', 'decrypt', 'mac', 'wrap', 'get_state', 'get_state', 'revoke:SUPERSEDED', 'revoke:KEY_COMPROMISE',
+                                      'destroy', 'encrypt', 'wrap'))
+                    try:
+                        if sym == 'get_state':
+                            op = op_get_attributes(o.uid, ['State'])
+                        elif sym.startswith('revoke:'):
+                            op = op_revoke(o.uid, RC[sym.split(':')[1]])
+                        else:
+                            op = symbol_op(sym, o.uid, helper.uid, v)
+                        frames.append(rig.encode_request(rig.build_request(v, [op]), v))
+                        labs.append(sym.split(':')[0])
+                    except Exception:
+                        pass
+                scripts.append(((u, g), frames))
+                labels.append(labs)
+            ctx.cell('beside', '+'.join('%d.%d' % v for _, v in clients))
+            alone_vs_beside(ctx, d, srv, scripts, rng, 'beside', labels, name='kv-c04')
+        finally:
+            srv.close()
+
+
 def run_batch(ctx, case):
     """Lifecycle rules inside batches: several items on the same objects in one request (Stop / Continue), Revoke in
     all its forms (reason codes, messages, compromise occurrence dates in the past, at zero and in the future).  Items
@@ -524,6 +570,8 @@ def run_batch(ctx, case):
 def run_case(ctx, case):
     if 'batch' in case:
         return run_batch(ctx, case)
+    if 'beside' in case:
+        return run_beside(ctx, case)
     if 'variant' in case:
         run_variant(ctx, case['variant'][0], case['variant'][1])
     else:
